@@ -806,6 +806,9 @@ func extractFileStore() {
 	g.def("fileIdCollisionCheck", "String", leanStr(collision),
 		"the message constructor: \"skipsExisting\" = the variable that becomes Fid is drawn by a package function G and then re-drawn by `for <has>(id) { … id = G(..) … }` (no break / return) where <has> is `for _, m := range <list> { if m.Fid == id { return true } }; return false`; \"none\" = one draw, no loop after it")
 
+	// -- hasIDSearch / redrawLoop (filestore_ids.go)
+	fsIdsFacts(g, p, nm, idObj, genFn, loader, defStmt)
+
 	// -- idGenerator
 	idGen := "unknown"
 	if genFn != nil {
